@@ -80,7 +80,7 @@ Definition chk_C01 (s : src) (o : tree_obs) : N :=
            end in
   match r with
   | 0 => 0
-  | k => if k4_shape s then 54 else if k3_shape s then 53 else k
+  | k => if k3_shape s then 53 else k     (* unsorted maps (former class K4) reassemble since fix F15 *)
   end.
 
 (* ====================================================================== *)
